@@ -98,6 +98,23 @@ CORE = [
     ["Vstack", [["Identity", [2, 3]], ["Resize", [2, 2], [2, 3], None, None]], -1],
     ["Diag", [["Identity", [2, 3]], ["Multiply", [2, 3], [2, 3], False]], -2, -1],
     ["Hstack", [["Sum", [2, 3], [0]], ["Sum", [2, 3], [0]]], -2],
+    # sums whose FIRST term returns a view of its input (in-place accumulation would write through it), 2 and 3 terms
+    ["Add", [["Transpose", [2, 3], None], ["Transpose", [2, 3], None]]],
+    ["Add", [["Flip", [2, 3], [-1]], ["Identity", [2, 3]], ["Multiply", [2, 3], [2, 3], False]]],
+    ["AddC", [["Reshape", [2, 3], [6]], ["Reshape", [2, 3], [6]], ["Mul", [["Multiply", [2, 3], [3], True], ["Reshape", [2, 3], [6]]]]]],
+    ["Sub", ["Slice", [2, 3], [[None, None, None], [None, None, 2]]], ["Slice", [2, 3], [[None, None, None], [None, None, 2]]]],
+    ["Sub", ["Sub", ["Transpose", [2, 3], None], ["Mul", [["Transpose", [2, 3], None], ["Multiply", [2, 3], "cplx", False]]]], ["Transpose", [2, 3], None]],
+    ["Add", [["Circshift", [2, 3], [1], [1]], ["Flip", [2, 3], [-1]], ["Identity", [2, 3]]]],
+    # stacks of blocks whose output rank differs from their input rank, negative axes
+    ["Vstack", [["Reshape", [2, 3], [6]], ["Reshape", [2, 3], [6]]], -1],
+    ["Vstack", [["Reshape", [2, 3], [6]], ["Reshape", [2, 3], [6]]], -2],
+    ["Hstack", [["Reshape", [6], [2, 3]], ["Reshape", [6], [2, 3]]], -1],
+    ["Hstack", [["Reshape", [6], [2, 3]], ["Reshape", [6], [2, 3]]], -2],
+    ["Hstack", [["Sum", [2, 3], [0]], ["Sum", [2, 3], [0]]], -1],
+    ["Diag", [["Reshape", [2, 3], [6]], ["Reshape", [2, 3], [6]]], -1, -1],
+    ["Diag", [["Reshape", [6], [2, 3]], ["Reshape", [6], [2, 3]]], -1, -2],
+    ["Diag", [["Sum", [2, 3], [1]], ["Sum", [2, 3], [1]]], -1, -2],
+    ["Vstack", [["Sum", [2, 3], [0]], ["Sum", [2, 3], [0]]], -1],
 ]
 
 
@@ -198,6 +215,29 @@ def _cat(shs, ax):
     return r
 
 
+PARAM_OPS = {"MatMul", "RightMatMul", "ConvolveData", "ConvolveFilter", "ConvolveDataAdjoint", "ConvolveFilterAdjoint", "Sense"}
+
+
+def pdeg(spec):
+    """polynomial degree of the tree's output in its symbolic operator parameters (N doubles it): bounds the size of the normal forms"""
+    op = spec[0]
+    if op not in C.TREE_OPS:
+        if op in PARAM_OPS:
+            return 1
+        if op == "Multiply":
+            return 1 if (isinstance(spec[2], list) or spec[2] in ("cplx", "real")) else 0
+        return 0
+    ks = [pdeg(k) for k in C.kids_of(spec)]
+    if op in ("Compose", "Mul"):
+        return sum(ks)
+    if op == "N":
+        return 2 * ks[0]
+    if op in ("ScaleL", "ScaleR"):
+        sc = spec[1] if op == "ScaleL" else spec[2]
+        return ks[0] + (1 if sc in ("cplx", "real") else 0)
+    return max(ks) if ks else 0
+
+
 def _size(sh):
     p = 1
     for d in sh:
@@ -210,7 +250,7 @@ def tree_specs(tier, seed):
     out = list(CORE)
     pool_info = [(s, shapes(s)) for s in TL]
     if tier == "quick":
-        n2, n3 = 60, 0
+        n2, n3 = 240, 0
     else:
         n2, n3 = 0, 300
         out += depth2(TL)
@@ -226,7 +266,7 @@ def tree_specs(tier, seed):
         if r is None:
             continue
         s, i, o = r
-        if _size(i) > 24 or _size(o) > 36:
+        if _size(i) > 24 or _size(o) > 36 or pdeg(s) > (2 if tier == "quick" else 3):
             continue
         k = C.sid(s)
         if k in seen:
